@@ -7,6 +7,7 @@
 import SqlDt.Generated
 import SqlDt.Model.Basic
 import SqlDt.Model.F64     -- the model's soft-float (core Lean, imports Model.Basic only)
+import SqlDt.Model.Format  -- only for the structure `NDT` that `format::NaiveDateTime` is mapped onto
 set_option linter.unusedVariables false
 namespace SqlDt.Tr
 open SqlDt SqlDt.Gen
@@ -1431,32 +1432,262 @@ def Timestamp.oracle_sub_days_safe (self : Int) (days : F64) : Prop :=
   Tr.OracleDate.from_timestamp_safe self ∧
   Tr.OracleDate.add_days_safe (Tr.OracleDate.from_timestamp self) (F64.neg days)
 
-/-- `date.rs::Date::is_valid` (date.rs:139), body sha1 4487b69d9774 -/
-def Date.is_valid (year : Int) (month : Int) (day : Int) : Bool :=
-  -- date.rs:140: if year < DATE_MIN_YEAR || year > DATE_MAX_YEAR {
-  if year < DATE_MIN_YEAR ∨ year > DATE_MAX_YEAR then
-    -- date.rs:141: return false;
-    false
-  -- date.rs:144: if month < 1 || month > MONTHS_PER_YEAR {
-  else if month < 1 ∨ month > MONTHS_PER_YEAR then
-    -- date.rs:145: return false;
-    false
-  -- date.rs:148: if day < 1 || day > 31 {
-  else if day < 1 ∨ day > 31 then
-    -- date.rs:149: return false;
-    false
-  -- date.rs:152: if day > days_of_month(year, month) {
-  else if day > Tr.days_of_month year month then
-    -- date.rs:153: return false;
-    false
-  else
-    true
+/-- `format.rs::NaiveDateTime::new` (format.rs:327), body sha1 219f380c2b4d -/
+def NDT.new  : SqlDt.NDT :=
+  ({ year := DATE_MIN_YEAR, month := 0, day := 1, hour := 0, minute := 0, sec := 0, usec := 0, ampm := none, negative := false } : SqlDt.NDT)
 
-/-- No arithmetic node of `date.rs::Date::is_valid` leaves its Rust integer type, no division by zero, no index out of range
+/-- No arithmetic node of `format.rs::NaiveDateTime::new` leaves its Rust integer type, no division by zero, no index out of range
     (path-sensitive; calls contribute the callee's predicate). -/
-def Date.is_valid_safe (year : Int) (month : Int) (day : Int) : Prop :=
-  (¬ (year < DATE_MIN_YEAR ∨ year > DATE_MAX_YEAR) →
-    ¬ (month < 1 ∨ month > MONTHS_PER_YEAR) → ¬ (day < 1 ∨ day > 31) → Tr.days_of_month_safe year month)
+def NDT.new_safe  : Prop :=
+  True
+
+/-- `format.rs::NaiveDateTime::hour12` (format.rs:362), body sha1 0921a2c3f081 -/
+def NDT.hour12 (self : SqlDt.NDT) : Int :=
+  let m1 : Int := self.hour
+  if m1 = 0 then 12 else if 1 ≤ m1 ∧ m1 ≤ 12 then self.hour else self.hour - 12
+
+/-- No arithmetic node of `format.rs::NaiveDateTime::hour12` leaves its Rust integer type, no division by zero, no index out of range
+    (path-sensitive; calls contribute the callee's predicate). -/
+def NDT.hour12_safe (self : SqlDt.NDT) : Prop :=
+  let m1 : Int := self.hour
+  ¬ m1 = 0 → ¬ (1 ≤ m1 ∧ m1 ≤ 12) → fitsU32 (self.hour - 12)
+
+/-- `format.rs::NaiveDateTime::adjust_hour12` (format.rs:397), body sha1 f891da308067 -/
+def NDT.adjust_hour12 (self : SqlDt.NDT) : SqlDt.NDT :=
+  let self : SqlDt.NDT :=
+    match self.ampm with
+    | some ampm =>
+        -- format.rs:399: let hour24 = match ampm {
+        let hour24 : Int :=
+          if ampm = false then
+            if self.hour = 12 then 0 else self.hour
+          else if self.hour = 12 then
+            12
+          else
+            self.hour + 12
+        -- format.rs:416: self.hour = hour24 as u32;
+        let self : SqlDt.NDT := { self with hour := hour24 }
+        self
+    | _ => self
+  self
+
+/-- No arithmetic node of `format.rs::NaiveDateTime::adjust_hour12` leaves its Rust integer type, no division by zero, no index out of range
+    (path-sensitive; calls contribute the callee's predicate). -/
+def NDT.adjust_hour12_safe (self : SqlDt.NDT) : Prop :=
+  match self.ampm with
+  | some ampm => ¬ ampm = false → ¬ self.hour = 12 → fitsU32 (self.hour + 12)
+  | _ => True
+
+/-- `date.rs::From<Date> for NaiveDateTime::from` (date.rs:712), body sha1 7f54a49d3756 -/
+def NDT.of_date (date : Int) : SqlDt.NDT :=
+  -- date.rs:713: let (year, month, day) = date.extract();
+  let year_month_day : Int × Int × Int := Tr.Date.extract date
+  let year : Int := year_month_day.1
+  let month : Int := year_month_day.2.1
+  let day : Int := year_month_day.2.2
+  { Tr.NDT.new with year := year, month := month, day := day }
+
+/-- No arithmetic node of `date.rs::From<Date> for NaiveDateTime::from` leaves its Rust integer type, no division by zero, no index out of range
+    (path-sensitive; calls contribute the callee's predicate). -/
+def NDT.of_date_safe (date : Int) : Prop :=
+  Tr.Date.extract_safe date ∧
+  let year_month_day : Int × Int × Int := Tr.Date.extract date
+  let year : Int := year_month_day.1
+  let month : Int := year_month_day.2.1
+  let day : Int := year_month_day.2.2
+  Tr.NDT.new_safe
+
+/-- `time.rs::From<Time> for NaiveDateTime::from` (time.rs:200), body sha1 7979379a6dec -/
+def NDT.of_time (time : Int) : SqlDt.NDT :=
+  -- time.rs:201: let (hour, minute, sec, usec) = time.extract();
+  let hour_minute_sec_usec : Int × Int × Int × Int := Tr.Time.extract time
+  let hour : Int := hour_minute_sec_usec.1
+  let minute : Int := hour_minute_sec_usec.2.1
+  let sec : Int := hour_minute_sec_usec.2.2.1
+  let usec : Int := hour_minute_sec_usec.2.2.2
+  { Tr.NDT.new with hour := hour, minute := minute, sec := sec, usec := usec }
+
+/-- No arithmetic node of `time.rs::From<Time> for NaiveDateTime::from` leaves its Rust integer type, no division by zero, no index out of range
+    (path-sensitive; calls contribute the callee's predicate). -/
+def NDT.of_time_safe (time : Int) : Prop :=
+  Tr.Time.extract_safe time ∧
+  let hour_minute_sec_usec : Int × Int × Int × Int := Tr.Time.extract time
+  let hour : Int := hour_minute_sec_usec.1
+  let minute : Int := hour_minute_sec_usec.2.1
+  let sec : Int := hour_minute_sec_usec.2.2.1
+  let usec : Int := hour_minute_sec_usec.2.2.2
+  Tr.NDT.new_safe
+
+/-- `timestamp.rs::From<Timestamp> for NaiveDateTime::from` (timestamp.rs:410), body sha1 b9e2cfb37c87 -/
+def NDT.of_timestamp (ts : Int) : SqlDt.NDT :=
+  -- timestamp.rs:411: let (date, time) = ts.extract();
+  let date_time : Int × Int := Tr.Timestamp.extract ts
+  let date : Int := date_time.1
+  let time : Int := date_time.2
+  -- timestamp.rs:412: let (year, month, day) = date.extract();
+  let year_month_day : Int × Int × Int := Tr.Date.extract date
+  let year : Int := year_month_day.1
+  let month : Int := year_month_day.2.1
+  let day : Int := year_month_day.2.2
+  -- timestamp.rs:413: let (hour, minute, sec, usec) = time.extract();
+  let hour_minute_sec_usec : Int × Int × Int × Int := Tr.Time.extract time
+  let hour : Int := hour_minute_sec_usec.1
+  let minute : Int := hour_minute_sec_usec.2.1
+  let sec : Int := hour_minute_sec_usec.2.2.1
+  let usec : Int := hour_minute_sec_usec.2.2.2
+  ({ year := year, month := month, day := day, hour := hour, minute := minute, sec := sec, usec := usec, ampm := none, negative := false } : SqlDt.NDT)
+
+/-- No arithmetic node of `timestamp.rs::From<Timestamp> for NaiveDateTime::from` leaves its Rust integer type, no division by zero, no index out of range
+    (path-sensitive; calls contribute the callee's predicate). -/
+def NDT.of_timestamp_safe (ts : Int) : Prop :=
+  Tr.Timestamp.extract_safe ts ∧
+  let date_time : Int × Int := Tr.Timestamp.extract ts
+  let date : Int := date_time.1
+  let time : Int := date_time.2
+  Tr.Date.extract_safe date ∧
+  let year_month_day : Int × Int × Int := Tr.Date.extract date
+  let year : Int := year_month_day.1
+  let month : Int := year_month_day.2.1
+  let day : Int := year_month_day.2.2
+  Tr.Time.extract_safe time
+
+/-- `interval.rs::From<IntervalYM> for NaiveDateTime::from` (interval.rs:199), body sha1 b3cf790dcbda -/
+def NDT.of_interval_ym (interval : Int) : SqlDt.NDT :=
+  -- interval.rs:200: let (sign, year, month) = interval.extract();
+  let sign_year_month : Int × Int × Int := Tr.IntervalYM.extract interval
+  let sign : Int := sign_year_month.1
+  let year : Int := sign_year_month.2.1
+  let month : Int := sign_year_month.2.2
+  -- interval.rs:201: let negative = sign == Negative;
+  let negative : Bool := decide (sign = (-1))
+  { Tr.NDT.new with year := asI32 year, month := month, negative := negative }
+
+/-- No arithmetic node of `interval.rs::From<IntervalYM> for NaiveDateTime::from` leaves its Rust integer type, no division by zero, no index out of range
+    (path-sensitive; calls contribute the callee's predicate). -/
+def NDT.of_interval_ym_safe (interval : Int) : Prop :=
+  Tr.IntervalYM.extract_safe interval ∧
+  let sign_year_month : Int × Int × Int := Tr.IntervalYM.extract interval
+  let sign : Int := sign_year_month.1
+  let year : Int := sign_year_month.2.1
+  let month : Int := sign_year_month.2.2
+  let negative : Bool := decide (sign = (-1))
+  Tr.NDT.new_safe
+
+/-- `interval.rs::From<IntervalDT> for NaiveDateTime::from` (interval.rs:509), body sha1 54791c39468a -/
+def NDT.of_interval_dt (interval : Int) : SqlDt.NDT :=
+  -- interval.rs:510: let (sign, day, hour, minute, sec, usec) = interval.extract();
+  let sign_day_hour_minute_sec_usec : Int × Int × Int × Int × Int × Int := Tr.IntervalDT.extract interval
+  let sign : Int := sign_day_hour_minute_sec_usec.1
+  let day : Int := sign_day_hour_minute_sec_usec.2.1
+  let hour : Int := sign_day_hour_minute_sec_usec.2.2.1
+  let minute : Int := sign_day_hour_minute_sec_usec.2.2.2.1
+  let sec : Int := sign_day_hour_minute_sec_usec.2.2.2.2.1
+  let usec : Int := sign_day_hour_minute_sec_usec.2.2.2.2.2
+  -- interval.rs:511: let negative = sign == Sign::Negative;
+  let negative : Bool := decide (sign = (-1))
+  { Tr.NDT.new with day := day, hour := hour, minute := minute, sec := sec, usec := usec, negative := negative }
+
+/-- No arithmetic node of `interval.rs::From<IntervalDT> for NaiveDateTime::from` leaves its Rust integer type, no division by zero, no index out of range
+    (path-sensitive; calls contribute the callee's predicate). -/
+def NDT.of_interval_dt_safe (interval : Int) : Prop :=
+  Tr.IntervalDT.extract_safe interval ∧
+  let sign_day_hour_minute_sec_usec : Int × Int × Int × Int × Int × Int := Tr.IntervalDT.extract interval
+  let sign : Int := sign_day_hour_minute_sec_usec.1
+  let day : Int := sign_day_hour_minute_sec_usec.2.1
+  let hour : Int := sign_day_hour_minute_sec_usec.2.2.1
+  let minute : Int := sign_day_hour_minute_sec_usec.2.2.2.1
+  let sec : Int := sign_day_hour_minute_sec_usec.2.2.2.2.1
+  let usec : Int := sign_day_hour_minute_sec_usec.2.2.2.2.2
+  let negative : Bool := decide (sign = (-1))
+  Tr.NDT.new_safe
+
+/-- `oracle.rs::From<OracleDate> for NaiveDateTime::from` (oracle.rs:415), body sha1 33d9fe7002af -/
+-- inlined helpers: oracle.rs::Date::extract
+def NDT.of_oracle_date (dt : Int) : SqlDt.NDT :=
+  -- oracle.rs:416: let (date, time) = dt.extract();
+  let date_time : Int × Int := (fun (self : Int) => Tr.Timestamp.extract self) dt
+  let date : Int := date_time.1
+  let time : Int := date_time.2
+  -- oracle.rs:417: let (year, month, day) = date.extract();
+  let year_month_day : Int × Int × Int := Tr.Date.extract date
+  let year : Int := year_month_day.1
+  let month : Int := year_month_day.2.1
+  let day : Int := year_month_day.2.2
+  -- oracle.rs:418: let (hour, minute, sec, usec) = time.extract();
+  let hour_minute_sec_usec : Int × Int × Int × Int := Tr.Time.extract time
+  let hour : Int := hour_minute_sec_usec.1
+  let minute : Int := hour_minute_sec_usec.2.1
+  let sec : Int := hour_minute_sec_usec.2.2.1
+  let usec : Int := hour_minute_sec_usec.2.2.2
+  ({ year := year, month := month, day := day, hour := hour, minute := minute, sec := sec, usec := usec, ampm := none, negative := false } : SqlDt.NDT)
+
+/-- No arithmetic node of `oracle.rs::From<OracleDate> for NaiveDateTime::from` leaves its Rust integer type, no division by zero, no index out of range
+    (path-sensitive; calls contribute the callee's predicate). -/
+def NDT.of_oracle_date_safe (dt : Int) : Prop :=
+  (fun (self : Int) => Tr.Timestamp.extract_safe self) dt ∧
+  let date_time : Int × Int := (fun (self : Int) => Tr.Timestamp.extract self) dt
+  let date : Int := date_time.1
+  let time : Int := date_time.2
+  Tr.Date.extract_safe date ∧
+  let year_month_day : Int × Int × Int := Tr.Date.extract date
+  let year : Int := year_month_day.1
+  let month : Int := year_month_day.2.1
+  let day : Int := year_month_day.2.2
+  Tr.Time.extract_safe time
+
+/-- `date.rs::TryFrom<&NaiveDateTime> for Date::try_from` (date.rs:742), body sha1 8fb9f3db59bc -/
+def Date.try_from_ndt_ref (dt : SqlDt.NDT) : Chk Int :=
+  Tr.Date.try_from_ymd dt.year dt.month dt.day
+
+/-- No arithmetic node of `date.rs::TryFrom<&NaiveDateTime> for Date::try_from` leaves its Rust integer type, no division by zero, no index out of range
+    (path-sensitive; calls contribute the callee's predicate). -/
+def Date.try_from_ndt_ref_safe (dt : SqlDt.NDT) : Prop :=
+  Tr.Date.try_from_ymd_safe dt.year dt.month dt.day
+
+/-- `date.rs::TryFrom<NaiveDateTime> for Date::try_from` (date.rs:751), body sha1 0b58f5647373 -/
+def Date.try_from_ndt (dt : SqlDt.NDT) : Chk Int :=
+  Tr.Date.try_from_ndt_ref dt
+
+/-- No arithmetic node of `date.rs::TryFrom<NaiveDateTime> for Date::try_from` leaves its Rust integer type, no division by zero, no index out of range
+    (path-sensitive; calls contribute the callee's predicate). -/
+def Date.try_from_ndt_safe (dt : SqlDt.NDT) : Prop :=
+  Tr.Date.try_from_ndt_ref_safe dt
+
+/-- `time.rs::TryFrom<&NaiveDateTime> for Time::try_from` (time.rs:246), body sha1 97ca26e286bd -/
+def Time.try_from_ndt_ref (dt : SqlDt.NDT) : Chk Int :=
+  match Tr.Time.validate_hms dt.hour dt.minute dt.sec with
+  | Except.error err => Except.error err
+  | Except.ok r1 =>
+      -- time.rs:248: let total_usec = dt.hour as i64 * USECONDS_PER_HOUR
+      let total_usec : Int :=
+        dt.hour * USECONDS_PER_HOUR + dt.minute * USECONDS_PER_MINUTE + dt.sec * USECONDS_PER_SECOND + dt.usec
+      Tr.Time.try_from_usecs total_usec
+
+/-- No arithmetic node of `time.rs::TryFrom<&NaiveDateTime> for Time::try_from` leaves its Rust integer type, no division by zero, no index out of range
+    (path-sensitive; calls contribute the callee's predicate). -/
+def Time.try_from_ndt_ref_safe (dt : SqlDt.NDT) : Prop :=
+  Tr.Time.validate_hms_safe dt.hour dt.minute dt.sec ∧
+  (match Tr.Time.validate_hms dt.hour dt.minute dt.sec with
+   | Except.error err => True
+   | Except.ok r1 =>
+       fitsI64 (dt.hour * USECONDS_PER_HOUR) ∧
+       fitsI64 (dt.minute * USECONDS_PER_MINUTE) ∧
+       fitsI64 (dt.hour * USECONDS_PER_HOUR + dt.minute * USECONDS_PER_MINUTE) ∧
+       fitsI64 (dt.sec * USECONDS_PER_SECOND) ∧
+       (fitsI64 (dt.hour * USECONDS_PER_HOUR + dt.minute * USECONDS_PER_MINUTE + dt.sec * USECONDS_PER_SECOND)) ∧
+       (fitsI64 (dt.hour * USECONDS_PER_HOUR + dt.minute * USECONDS_PER_MINUTE + dt.sec * USECONDS_PER_SECOND + dt.usec)) ∧
+       let total_usec : Int :=
+         dt.hour * USECONDS_PER_HOUR + dt.minute * USECONDS_PER_MINUTE + dt.sec * USECONDS_PER_SECOND + dt.usec
+       Tr.Time.try_from_usecs_safe total_usec)
+
+/-- `time.rs::TryFrom<NaiveDateTime> for Time::try_from` (time.rs:261), body sha1 c3fda3dbaaad -/
+def Time.try_from_ndt (dt : SqlDt.NDT) : Chk Int :=
+  Tr.Time.try_from_ndt_ref dt
+
+/-- No arithmetic node of `time.rs::TryFrom<NaiveDateTime> for Time::try_from` leaves its Rust integer type, no division by zero, no index out of range
+    (path-sensitive; calls contribute the callee's predicate). -/
+def Time.try_from_ndt_safe (dt : SqlDt.NDT) : Prop :=
+  Tr.Time.try_from_ndt_ref_safe dt
 
 /-- `date.rs::Date::validate_ymd` (date.rs:161), body sha1 07259a877af1 -/
 def Date.validate_ymd (year : Int) (month : Int) (day : Int) : Chk Unit :=
@@ -1482,6 +1713,139 @@ def Date.validate_ymd (year : Int) (month : Int) (day : Int) : Chk Unit :=
 /-- No arithmetic node of `date.rs::Date::validate_ymd` leaves its Rust integer type, no division by zero, no index out of range
     (path-sensitive; calls contribute the callee's predicate). -/
 def Date.validate_ymd_safe (year : Int) (month : Int) (day : Int) : Prop :=
+  (¬ (year < DATE_MIN_YEAR ∨ year > DATE_MAX_YEAR) →
+    ¬ (month < 1 ∨ month > MONTHS_PER_YEAR) → ¬ (day < 1 ∨ day > 31) → Tr.days_of_month_safe year month)
+
+/-- `timestamp.rs::TryFrom<NaiveDateTime> for Timestamp::try_from` (timestamp.rs:433), body sha1 9576d6afd913 -/
+def Timestamp.try_from_ndt (dt : SqlDt.NDT) : Chk Int :=
+  match Tr.Date.validate_ymd dt.year dt.month dt.day with
+  | Except.error err => Except.error err
+  | Except.ok r1 =>
+      match Tr.Time.validate_hms dt.hour dt.minute dt.sec with
+      | Except.error err => Except.error err
+      | Except.ok r2 =>
+          -- timestamp.rs:437: let days = date2julian(dt.year, dt.month, dt.day) - UNIX_EPOCH_JULIAN;
+          let days : Int := Tr.date2julian dt.year dt.month dt.day - Tr.UNIX_EPOCH_JULIAN
+          -- timestamp.rs:438: let total_usec = days as i64 * USECONDS_PER_DAY
+          let total_usec : Int :=
+            days * USECONDS_PER_DAY + dt.hour * USECONDS_PER_HOUR + dt.minute * USECONDS_PER_MINUTE + dt.sec * USECONDS_PER_SECOND + dt.usec
+          Tr.Timestamp.try_from_usecs total_usec
+
+/-- No arithmetic node of `timestamp.rs::TryFrom<NaiveDateTime> for Timestamp::try_from` leaves its Rust integer type, no division by zero, no index out of range
+    (path-sensitive; calls contribute the callee's predicate). -/
+def Timestamp.try_from_ndt_safe (dt : SqlDt.NDT) : Prop :=
+  Tr.Date.validate_ymd_safe dt.year dt.month dt.day ∧
+  (match Tr.Date.validate_ymd dt.year dt.month dt.day with
+   | Except.error err => True
+   | Except.ok r1 =>
+       Tr.Time.validate_hms_safe dt.hour dt.minute dt.sec ∧
+       (match Tr.Time.validate_hms dt.hour dt.minute dt.sec with
+        | Except.error err => True
+        | Except.ok r2 =>
+            Tr.date2julian_safe dt.year dt.month dt.day ∧
+            fitsI32 (Tr.date2julian dt.year dt.month dt.day - Tr.UNIX_EPOCH_JULIAN) ∧
+            let days : Int := Tr.date2julian dt.year dt.month dt.day - Tr.UNIX_EPOCH_JULIAN
+            fitsI64 (days * USECONDS_PER_DAY) ∧
+            fitsI64 (dt.hour * USECONDS_PER_HOUR) ∧
+            fitsI64 (days * USECONDS_PER_DAY + dt.hour * USECONDS_PER_HOUR) ∧
+            fitsI64 (dt.minute * USECONDS_PER_MINUTE) ∧
+            (fitsI64 (days * USECONDS_PER_DAY + dt.hour * USECONDS_PER_HOUR + dt.minute * USECONDS_PER_MINUTE)) ∧
+            fitsI64 (dt.sec * USECONDS_PER_SECOND) ∧
+            (fitsI64 (days * USECONDS_PER_DAY + dt.hour * USECONDS_PER_HOUR + dt.minute * USECONDS_PER_MINUTE + dt.sec * USECONDS_PER_SECOND)) ∧
+            (fitsI64 (days * USECONDS_PER_DAY + dt.hour * USECONDS_PER_HOUR + dt.minute * USECONDS_PER_MINUTE + dt.sec * USECONDS_PER_SECOND + dt.usec)) ∧
+            let total_usec : Int :=
+              days * USECONDS_PER_DAY + dt.hour * USECONDS_PER_HOUR + dt.minute * USECONDS_PER_MINUTE + dt.sec * USECONDS_PER_SECOND + dt.usec
+            Tr.Timestamp.try_from_usecs_safe total_usec))
+
+/-- `interval.rs::TryFrom<NaiveDateTime> for IntervalYM::try_from` (interval.rs:215), body sha1 ad5148935dff -/
+-- inlined helpers: interval.rs::Neg for IntervalYM::neg
+def IntervalYM.try_from_ndt (dt : SqlDt.NDT) : Chk Int :=
+  if dt.negative = true then
+    match Tr.IntervalYM.try_from_ym (asU32 (-dt.year)) dt.month with
+    | Except.error err => Except.error err
+    | Except.ok r1 => Except.ok ((fun (self : Int) => Tr.IntervalYM.negate self) r1)
+  else
+    Tr.IntervalYM.try_from_ym (asU32 dt.year) dt.month
+
+/-- No arithmetic node of `interval.rs::TryFrom<NaiveDateTime> for IntervalYM::try_from` leaves its Rust integer type, no division by zero, no index out of range
+    (path-sensitive; calls contribute the callee's predicate). -/
+def IntervalYM.try_from_ndt_safe (dt : SqlDt.NDT) : Prop :=
+  (dt.negative = true →
+    fitsI32 (-dt.year) ∧
+    Tr.IntervalYM.try_from_ym_safe (asU32 (-dt.year)) dt.month ∧
+    (match Tr.IntervalYM.try_from_ym (asU32 (-dt.year)) dt.month with
+     | Except.error err => True
+     | Except.ok r1 => (fun (self : Int) => Tr.IntervalYM.negate_safe self) r1)) ∧
+  (¬ dt.negative = true → Tr.IntervalYM.try_from_ym_safe (asU32 dt.year) dt.month)
+
+/-- `interval.rs::TryFrom<NaiveDateTime> for IntervalDT::try_from` (interval.rs:528), body sha1 de671168c7ca -/
+def IntervalDT.try_from_ndt (dt : SqlDt.NDT) : Chk Int :=
+  match Tr.IntervalDT.try_from_dhms dt.day dt.hour dt.minute dt.sec 0 with
+  | Except.error err => Except.error err
+  | Except.ok r1 =>
+      -- interval.rs:531: let whole = IntervalDT::try_from_dhms(dt.day, dt.hour, dt.minute, dt.sec, 0)?;
+      let whole : Int := r1
+      match Tr.IntervalDT.try_from_usecs (whole + dt.usec) with
+      | Except.error err => Except.error err
+      | Except.ok r2 =>
+          -- interval.rs:532: let interval = IntervalDT::try_from_usecs(whole.usecs() + dt.usec as i64)?;
+          let interval : Int := r2
+          if dt.negative = true then Except.ok (Tr.IntervalDT.negate interval) else Except.ok interval
+
+/-- No arithmetic node of `interval.rs::TryFrom<NaiveDateTime> for IntervalDT::try_from` leaves its Rust integer type, no division by zero, no index out of range
+    (path-sensitive; calls contribute the callee's predicate). -/
+def IntervalDT.try_from_ndt_safe (dt : SqlDt.NDT) : Prop :=
+  Tr.IntervalDT.try_from_dhms_safe dt.day dt.hour dt.minute dt.sec 0 ∧
+  (match Tr.IntervalDT.try_from_dhms dt.day dt.hour dt.minute dt.sec 0 with
+   | Except.error err => True
+   | Except.ok r1 =>
+       let whole : Int := r1
+       fitsI64 (whole + dt.usec) ∧
+       Tr.IntervalDT.try_from_usecs_safe (whole + dt.usec) ∧
+       (match Tr.IntervalDT.try_from_usecs (whole + dt.usec) with
+        | Except.error err => True
+        | Except.ok r2 =>
+            let interval : Int := r2
+            dt.negative = true → Tr.IntervalDT.negate_safe interval))
+
+/-- `oracle.rs::TryFrom<NaiveDateTime> for OracleDate::try_from` (oracle.rs:438), body sha1 dc5664669c4c -/
+def OracleDate.try_from_ndt (dt : SqlDt.NDT) : Chk Int :=
+  match Tr.Timestamp.try_from_ndt dt with
+  | Except.error err => Except.error err
+  | Except.ok r1 => Except.ok (Tr.OracleDate.from_timestamp r1)
+
+/-- No arithmetic node of `oracle.rs::TryFrom<NaiveDateTime> for OracleDate::try_from` leaves its Rust integer type, no division by zero, no index out of range
+    (path-sensitive; calls contribute the callee's predicate). -/
+def OracleDate.try_from_ndt_safe (dt : SqlDt.NDT) : Prop :=
+  Tr.Timestamp.try_from_ndt_safe dt ∧
+  (match Tr.Timestamp.try_from_ndt dt with
+   | Except.error err => True
+   | Except.ok r1 => Tr.OracleDate.from_timestamp_safe r1)
+
+/-- `date.rs::Date::is_valid` (date.rs:139), body sha1 4487b69d9774 -/
+def Date.is_valid (year : Int) (month : Int) (day : Int) : Bool :=
+  -- date.rs:140: if year < DATE_MIN_YEAR || year > DATE_MAX_YEAR {
+  if year < DATE_MIN_YEAR ∨ year > DATE_MAX_YEAR then
+    -- date.rs:141: return false;
+    false
+  -- date.rs:144: if month < 1 || month > MONTHS_PER_YEAR {
+  else if month < 1 ∨ month > MONTHS_PER_YEAR then
+    -- date.rs:145: return false;
+    false
+  -- date.rs:148: if day < 1 || day > 31 {
+  else if day < 1 ∨ day > 31 then
+    -- date.rs:149: return false;
+    false
+  -- date.rs:152: if day > days_of_month(year, month) {
+  else if day > Tr.days_of_month year month then
+    -- date.rs:153: return false;
+    false
+  else
+    true
+
+/-- No arithmetic node of `date.rs::Date::is_valid` leaves its Rust integer type, no division by zero, no index out of range
+    (path-sensitive; calls contribute the callee's predicate). -/
+def Date.is_valid_safe (year : Int) (month : Int) (day : Int) : Prop :=
   (¬ (year < DATE_MIN_YEAR ∨ year > DATE_MAX_YEAR) →
     ¬ (month < 1 ∨ month > MONTHS_PER_YEAR) → ¬ (day < 1 ∨ day > 31) → Tr.days_of_month_safe year month)
 
